@@ -11,6 +11,7 @@ From Coq Require Import String List ZArith Bool Permutation Sorting.Sorted.
 From FV Require Import Model.MapOrder Proofs.MapOrderProofs Gen.MapSites Proofs.MapSitesProofs.
 Import ListNotations.
 Open Scope Z_scope.
+Open Scope list_scope.
 
 (** every map-iteration site of compiler/** that is reachable from compiler.Compile /
     GenerateFrugalWithOptions / parser.ParseFrugal is order-free in the sense of its class
